@@ -82,6 +82,10 @@ CHECKS['C19'] = dict(
     text='Proved: worker side, for every output script, each logger call is queued once in order, the fragments written to a stream are exactly the fragments of the captured records (each once, in order) and nothing is left to the exit-time flush (C19_worker_exactly_once; flush behaviour and end-of-task flush extracted); caller side, for every interleaving of record puts, result hand-overs and wait() halves, the records handled when the loop exits are exactly the records put, each once, in order, whichever task finished last (C19_caller_exactly_once; second log-queue drain extracted); each ingredient is necessary (C19_refuted_without). PARTIAL: cross-queue ordering (a synchronous put on the log queue before the put on the result queue is visible to the parent in that order) is multiprocessing.Manager behaviour, sampled by real fork/spawn runs with a collecting handler and gate-chosen last finisher.',
     design='6/C19', technique='Coq proofs over worker proxy model and caller timeline model + differential test of LoggerFileProxy + real-run sampling',
     note='Theorems are about Model/Log.v. Tie: Gen/SrcParams.v (LoggerFileProxy.flush clears?, streams flushed in _subprocess_func finally?, _consume_log_queue after executor.wait?), correspondence of the real LoggerFileProxy with the worker model, real runs. Print Assumptions: closed.')
+CHECKS['C14'] = dict(
+    text='Proved (Hoare logic over an exception+tick monad, IntrProofs.v): for every graph, worker count, oracle and every position of one or two interrupts among the ticks (entries/exits of start_task, submit_task, executor.submit, wait, Future.result, complete_task, remove_results, cancel, stop), once an interrupt has been delivered the run ends with KeyboardInterrupt - never a normal return, LabError, or the KeyError of a re-yielded task (C14_interrupt_raises_KeyboardInterrupt), given the pop-before-yield generator, the LabError-swallowing drain/stop code and cancel-before-stop read from the source; each ingredient is shown necessary by a model witness that was replayed on the implementation (C14_refuted_without). Clauses validated by injection rather than proved: no task started after the interrupt, running tasks finish and are cached, workers terminated after the second interrupt, cache consistency. PARTIAL: where a real signal lands in the bytecode and interrupted Manager-proxy calls are runtime behaviour; covered by line-level injection (every executed labtech line under serial in thorough) and real SIGINT runs.',
+    design='6/C14', technique='Coq Hoare-logic proof over an interruptible coordinator model + exhaustive tick-level, line-level and real-signal injection',
+    note='Theorems are about Model/Intr.v (TaskCoordinator.run try/except structure, process_completed_tasks, ProcessRunner.wait generator protocol, cancel/stop) with interrupts at ticks. Tie: Gen/SrcParams.v (pop-before-yield + KeyboardInterrupt let through in wait, drain loop / final call swallow LabError, cancel before stop, names bound before run_or_load_task\'s try) and correspondence: the same ticks are instrumented in the real code (monkeypatched method wrappers over gated real worker processes) and every single and sampled double interrupt position is compared (outcome, event trace, terminated workers). Print Assumptions: closed.')
 NOT_YET = {}
 
 
